@@ -49,6 +49,7 @@ theorem pinv_stepCrash (s : State) (m : Move) (k j : Nat) (h : Inv s) (ha : assu
   | deletePod ns name => exact (inv_step s _ h ha).toPInv
   | finishPod ns name => exact (inv_step s _ h ha).toPInv
   | runPod ns name => exact (inv_step s _ h ha).toPInv
+  | markTerminating ns name fault => exact (inv_step s _ h ha).toPInv
   | scale kind ns app n => exact (inv_step s _ h ha).toPInv
   | deleteApp kind ns app => exact (inv_step s _ h ha).toPInv
   | setPool name size => exact (inv_step s _ h ha).toPInv
@@ -89,6 +90,7 @@ theorem pinv_confAfter (s : State) (m : Move) (k j : Nat) (h : Inv s) (ha : assu
   | deletePod ns name => exact hp
   | finishPod ns name => exact hp
   | runPod ns name => exact hp
+  | markTerminating ns name fault => exact hp
   | scale kind ns app n => exact hp
   | deleteApp kind ns app => exact hp
   | setPool name size => exact hp
